@@ -23,7 +23,7 @@ def run_config(chk, tier, cfgname):
     typestate.apply(chk, "sweep-outcome-table", "sweep_one", aspects=("safety", "reclaim"))
     for t in ("trace", "trace_weak", "resurrect", "backward_barrier", "backward_barrier_weak", "forward_barrier",
               "forward_barrier_weak", "upgrade", "link", "mark_one"):
-        typestate.apply(chk, "colour-moves:" + t, t, aspects=("safety",))
+        typestate.apply(chk, "colour-moves:" + t, t, aspects=("safety", "overmark"))
     n = common.confined(chk, prog, "set_color-confined", "gc_ptr::GcHeader::set_color", TABLE_ENTRIES,
                         "colour written outside the analysed primitives")
     chk.floor("set_color-sites", n, 3)
